@@ -335,9 +335,12 @@ def compare_model(drv, real: RealSeq, weights: dict, mask, rng, stats) -> list[F
     qidx = {q: i for i, q in enumerate(real.dev.qids)}
     if not seq._schedule:
         return fails
-    with warnings.catch_warnings():
-        warnings.simplefilter("ignore")
-        samples = sample(seq)
+    try:
+        with warnings.catch_warnings():
+            warnings.simplefilter("ignore")
+            samples = sample(seq)
+    except Exception:  # noqa: BLE001  (reported by the monitor: "sampling yields …")
+        return fails
     durs = [s.duration for s in samples.samples_list]
     T = max(durs)
     # extension target: beyond the end, exactly the end, or (sometimes) below a channel's duration
@@ -458,9 +461,16 @@ def monitor_seq(real: RealSeq, user_pulses: set, rng, stats) -> list[Fail]:
     if not seq._schedule:
         return fails
     qids = real.dev.qids
-    with warnings.catch_warnings():
-        warnings.simplefilter("ignore")
-        samples = sample(seq)
+    try:
+        with warnings.catch_warnings():
+            warnings.simplefilter("ignore")
+            samples = sample(seq)
+    except NotImplementedError:
+        raise
+    except Exception as ex:  # noqa: BLE001
+        empty_eom = any(sch.eom_blocks and sch.get_duration() == 0 for sch in seq._schedule.values())
+        return [Fail("monitor", "sample-raises", f"sample(seq) raises {type(ex).__name__}: {ex}",
+                     exc=type(ex).__name__, cause="eom-on-empty-channel" if empty_eom else "other")]
     T = samples.max_duration
     in_xy = bool(seq._in_xy)
     chinfo = []
@@ -608,9 +618,27 @@ def monitor_seq(real: RealSeq, user_pulses: set, rng, stats) -> list[Fail]:
         # the phase of a pulse in the entry that carries it
         for k, (name, sch, ch, n, A, D, PH, pulses, _) in enumerate(chinfo):
             glob = ch.addressing == "Global" and not al and not isinstance(ch, DMM)
-            same_entry = [c2 for (_, _, c2, *_r) in chinfo
-                          if c2.basis == ch.basis
-                          and (c2.addressing == "Global" and not al and not isinstance(c2, DMM)) == glob]
+
+            def writers(entry_glob, q, t):
+                """Phases (at t) of the channels whose samples the real code adds into this entry at t."""
+                out = []
+                for (n2, _s2, c2, len2, _A, _D, PH2, p2, _st) in chinfo:
+                    if c2.basis != ch.basis:
+                        continue
+                    g2 = c2.addressing == "Global" and not al and not isinstance(c2, DMM)
+                    start2 = mask_end if (in_xy and g2) else 0
+                    ph2 = float(PH2[min(t, len2 - 1)]) if len2 else 0.0
+                    if g2:
+                        if entry_glob and t >= start2:
+                            out.append(ph2)
+                        elif not entry_glob and t < start2 and q not in mask_t:
+                            out.append(ph2)
+                    elif not entry_glob:
+                        for sl in samples.channel_samples[n2].slots:
+                            lo2 = max(sl.ti, mask_end) if (in_xy and q in mask_t) else sl.ti
+                            if q in sl.targets and lo2 <= t < sl.tf:
+                                out.append(ph2)
+                return out
             for i, s in pulses:
                 if is_dd(s.type) or isinstance(ch, DMM):
                     continue
@@ -622,12 +650,12 @@ def monitor_seq(real: RealSeq, user_pulses: set, rng, stats) -> list[Fail]:
                     if glob:
                         pieces = []
                         if in_xy and mask_end and lo < mask_end:
-                            pieces.append((d["Local"][ch.basis].get(q), lo, min(s.tf, mask_end)))
+                            pieces.append((d["Local"][ch.basis].get(q), lo, min(s.tf, mask_end), False))
                         if s.tf > max(lo, mask_end if in_xy else 0):
-                            pieces.append((d["Global"].get(ch.basis), max(lo, mask_end if in_xy else 0), s.tf))
+                            pieces.append((d["Global"].get(ch.basis), max(lo, mask_end if in_xy else 0), s.tf, True))
                     else:
-                        pieces = [(d["Local"].get(ch.basis, {}).get(q), lo, s.tf)]
-                    for entry, a, b in pieces:
+                        pieces = [(d["Local"].get(ch.basis, {}).get(q), lo, s.tf, False)]
+                    for entry, a, b, entry_glob in pieces:
                         if entry is None:
                             fails.append(Fail("monitor", "per-atom-missing", f"all_local={al}: no entry for atom {q} "
                                               f"targeted by {name}[{i}]"))
@@ -636,12 +664,14 @@ def monitor_seq(real: RealSeq, user_pulses: set, rng, stats) -> list[Fail]:
                         okp = mod2pi_eq(got, ph)
                         if not np.all(okp):
                             t = a + int(np.flatnonzero(~okp)[0])
-                            cause = "same-basis-channels-phase-sum" if len(same_entry) > 1 else "other"
+                            ws = writers(entry_glob, q, t)
+                            summed = len(ws) > 1 and bool(mod2pi_eq(np.array([got[t - a]]), float(sum(ws)))[0])
+                            cause = "same-basis-channels-phase-sum" if summed else "other"
                             fails.append(Fail("monitor", "per-atom-phase",
                                               f"all_local={al}: the entry of atom {q} ({ch.basis}, "
-                                              f"{'Global' if glob else 'Local'}) has phase {got[t - a]!r} at t={t} inside "
-                                              f"pulse {name}[{i}] whose phase is {ph!r}; {len(same_entry)} channel(s) "
-                                              f"write this entry", cause=cause))
+                                              f"{'Global' if entry_glob else 'Local'}) has phase {float(got[t - a])!r} at "
+                                              f"t={t} inside pulse {name}[{i}] whose phase is {ph!r}; {len(ws)} channels "
+                                              f"write this entry at that time, their phases are {ws}", cause=cause))
                     if glob:
                         break  # one atom is enough for a Global entry
         stats["mon_nested"] += 1
